@@ -184,8 +184,9 @@ def install(object_zeros=False):
     """Switch pgmpy to the object-dtype numpy backend and install the stubs."""
     from pgmpy import config
     import pgmpy.utils.compat_fns as cf
-    import pgmpy.factors.discrete.DiscreteFactor as DF
-    import pgmpy.factors.discrete.CPD as CPDm
+    import pgmpy.factors.discrete  # noqa
+    DF = sys.modules["pgmpy.factors.discrete.DiscreteFactor"]
+    CPDm = sys.modules["pgmpy.factors.discrete.CPD"]
 
     logging.getLogger("pgmpy").setLevel(logging.ERROR)
     config.set_backend("numpy", dtype=object)
